@@ -1,0 +1,208 @@
+//go:build verif
+// +build verif
+
+// Specification functions for the contracts in zz_verif_contracts.go.
+//
+// This file only exists under the build tag `verif`. Everything in it is pure Go that
+// the verification-condition generator in /verif translates to SMT together with the
+// code under contract. The functions are written as closed forms taken from the Ion 1.0
+// binary and text specifications, not from the code they judge.
+
+package ion
+
+// ---------------------------------------------------------------------------
+// Intrinsics understood by the generator.
+
+// vcForallX(f) is true iff f holds for every value of its parameter type.
+func vcForallInt(f func(int) bool) bool    { return true }
+func vcForallU64(f func(uint64) bool) bool { return true }
+func vcForallI64(f func(int64) bool) bool  { return true }
+func vcForallByte(f func(byte) bool) bool  { return true }
+func vcForallU32(f func(uint32) bool) bool { return true }
+func vcForallI32(f func(int32) bool) bool  { return true }
+func vcForallUint(f func(uint) bool) bool  { return true }
+func vcForallBool(f func(bool) bool) bool  { return true }
+
+// vcMod / vcModElems name a location (all elements of a backing array) in a
+// `modifies` clause.
+func vcMod(p interface{})             {}
+func vcModElems(n int, p interface{}) {}
+
+// vcFresh(x): the object x refers to (pointer target, backing array of a slice, map)
+// was allocated by the function the clause belongs to. vcSameArray(a, b): the slices
+// a and b share their backing array.
+func vcFresh(x interface{}) bool        { return true }
+func vcSameArray(a, b interface{}) bool { return true }
+
+// ---------------------------------------------------------------------------
+// Ion binary: fixed and variable length integers (Ion 1.0 binary spec,
+// "UInt and Int Fields", "VarUInt and VarInt Fields").
+
+// specUintLen is the number of bytes of the shortest big-endian encoding of v
+// (at least one byte).
+func specUintLen(v uint64) uint64 {
+	switch {
+	case v < 1<<8:
+		return 1
+	case v < 1<<16:
+		return 2
+	case v < 1<<24:
+		return 3
+	case v < 1<<32:
+		return 4
+	case v < 1<<40:
+		return 5
+	case v < 1<<48:
+		return 6
+	case v < 1<<56:
+		return 7
+	}
+	return 8
+}
+
+// specUintByte is byte k (0 = most significant) of the n-byte big-endian encoding of v.
+func specUintByte(v, n, k uint64) byte {
+	return byte(v >> (8 * (n - 1 - k)))
+}
+
+// specVarUintLen is the number of 7-bit groups needed for v (at least one).
+func specVarUintLen(v uint64) uint64 {
+	switch {
+	case v < 1<<7:
+		return 1
+	case v < 1<<14:
+		return 2
+	case v < 1<<21:
+		return 3
+	case v < 1<<28:
+		return 4
+	case v < 1<<35:
+		return 5
+	case v < 1<<42:
+		return 6
+	case v < 1<<49:
+		return 7
+	case v < 1<<56:
+		return 8
+	case v < 1<<63:
+		return 9
+	}
+	return 10
+}
+
+// specVarUintByte is byte k of the n-byte VarUInt encoding of v: seven value bits per
+// byte, most significant group first, the stop bit 0x80 on the last byte only.
+func specVarUintByte(v, n, k uint64) byte {
+	b := byte(v>>(7*(n-1-k))) & 0x7F
+	if k == n-1 {
+		b |= 0x80
+	}
+	return b
+}
+
+// specMag is the magnitude of a signed 64-bit value (2^63 for the minimum).
+func specMag(n int64) uint64 {
+	if n < 0 {
+		return uint64(-n)
+	}
+	return uint64(n)
+}
+
+// specIntLen is the length of the sign-and-magnitude Int encoding of n: zero bytes for
+// 0, otherwise the magnitude plus one sign bit, rounded up to whole bytes.
+func specIntLen(n int64) uint64 {
+	if n == 0 {
+		return 0
+	}
+	m := specMag(n)
+	switch {
+	case m < 1<<7:
+		return 1
+	case m < 1<<15:
+		return 2
+	case m < 1<<23:
+		return 3
+	case m < 1<<31:
+		return 4
+	case m < 1<<39:
+		return 5
+	case m < 1<<47:
+		return 6
+	case m < 1<<55:
+		return 7
+	case m < 1<<63:
+		return 8
+	}
+	return 9
+}
+
+// specIntByte is byte k of the l-byte Int encoding of n: big-endian magnitude with the
+// sign in the most significant bit of the first byte.
+func specIntByte(n int64, l, k uint64) byte {
+	m := specMag(n)
+	sh := 8 * (l - 1 - k)
+	b := byte(0)
+	if sh < 64 {
+		b = byte(m >> sh)
+	}
+	if k == 0 && n < 0 {
+		b |= 0x80
+	}
+	return b
+}
+
+// specVarIntLen is the length of the VarInt encoding: six magnitude bits in the first
+// byte (beside the sign and the stop bit), seven in each further byte.
+func specVarIntLen(v int64) uint64 {
+	m := specMag(v)
+	switch {
+	case m < 1<<6:
+		return 1
+	case m < 1<<13:
+		return 2
+	case m < 1<<20:
+		return 3
+	case m < 1<<27:
+		return 4
+	case m < 1<<34:
+		return 5
+	case m < 1<<41:
+		return 6
+	case m < 1<<48:
+		return 7
+	case m < 1<<55:
+		return 8
+	case m < 1<<62:
+		return 9
+	}
+	return 10
+}
+
+// specVarIntByte is byte k of the l-byte VarInt encoding of v.
+func specVarIntByte(v int64, l, k uint64) byte {
+	m := specMag(v)
+	sh := 7 * (l - 1 - k)
+	b := byte(0)
+	if sh < 64 {
+		b = byte(m>>sh) & 0x7F
+	}
+	if k == 0 {
+		b &= 0x3F
+		if v < 0 {
+			b |= 0x40
+		}
+	}
+	if k == l-1 {
+		b |= 0x80
+	}
+	return b
+}
+
+// specTagLen is the size of a type descriptor: one byte, plus a VarUInt length when the
+// length does not fit the low nibble (L >= 14).
+func specTagLen(length uint64) uint64 {
+	if length < 14 {
+		return 1
+	}
+	return 1 + specVarUintLen(length)
+}
